@@ -373,6 +373,19 @@ def r11_leap_polarity(ctx):
                         "ones)" % (f.qual, lonely, [a + "_LEAP"
                                                     for a in lonely]),
                         _props_for(f) + ("C15",))
+                else:
+                    rep.anchor(rule, "leap-selected tables")
+                    rep.violation(
+                        rule, ctx.fkey(f, test, "unpaired-leap-test"),
+                        f.loc(n),
+                        "%s lets a leap-year test (%s) decide something "
+                        "other than the choice between a calendar table and "
+                        "its _LEAP partner: the leap rule is the Gregorian "
+                        "one in every calendar mode, and only that choice is "
+                        "neutral in the 360/365/366-day calendars (their "
+                        "leap tables equal their common ones)" % (
+                            f.qual, U(test)[:70]),
+                        _props_for(f) + ("C15", "C03"))
                 continue
             if not positive:
                 t_attrs, f_attrs = f_attrs, t_attrs
@@ -562,9 +575,10 @@ def _r10_props(f, fld):
     if q.endswith("_tick_over"):
         # the normaliser also runs under every re-zoning, which feeds
         # comparison (C02) and subtraction (C04)
+        # ... and under every dump with a literal zone (C08)
         if fld in ("_day_of_year", "_week_of_year"):
-            return ("C01", "C06", "C20", "C02", "C04")
-        return ("C01", "C05", "C06", "C02", "C04")
+            return ("C01", "C06", "C20", "C02", "C04", "C08")
+        return ("C01", "C05", "C06", "C02", "C04", "C08")
     return ("C01", "C05", "C09")
 
 
